@@ -53,9 +53,15 @@ func SetBackend(b Backend, id int) {
 }
 
 // NewAddress returns a variable of type Address, which can be used
-// for unmarshalling an address from its binary representation.
+// for unmarshalling an address from its binary representation. It returns
+// nil if no backend is registered under the given id, which decoders must
+// check because the id is read from the wire.
 func NewAddress(id BackendID) Address {
-	return backend[id].NewAddress()
+	b, ok := backend[id]
+	if !ok {
+		return nil
+	}
+	return b.NewAddress()
 }
 
 // DecodeSig calls DecodeSig of all Backends and returns an error if none return a valid signature.
